@@ -45,7 +45,7 @@ def _install_update_probe() -> None:
 
 
 def sync_files(root: str, old: dict[str, str], new: dict[str, str], step: int, base: int = 1_600_000_000,
-               touch: list[str] | None = None) -> list[str]:
+               touch: list[str] | None = None, backwards: bool = False) -> list[str]:
     changed: list[str] = [t for t in (touch or []) if t in new]
     for rel in old:
         if rel not in new:
@@ -70,7 +70,7 @@ def sync_files(root: str, old: dict[str, str], new: dict[str, str], step: int, b
     for rel in changed:
         p = os.path.join(root, rel)
         if os.path.exists(p):
-            t = base + 10 * step
+            t = base + 10 * step if not backwards else base - 3600 - 10 * step
             os.utime(p, (t, t))
     return changed
 
@@ -93,7 +93,8 @@ def full_run(d: str, flags: list[str], targets: list[str], capture: bool = True)
 
 def run_history(versions: list[dict[str, str]], flags: list[str], targets: list[str],
                 modes: list[str] | None = None, oracle_last_only: bool = False,
-                oracle_steps: list[int] | None = None, consistency: bool = False) -> dict[str, Any]:
+                oracle_steps: list[int] | None = None, consistency: bool = False,
+                mtime_back: list[bool] | None = None) -> dict[str, Any]:
     from mypy import dmypy_server
     from mypy.dmypy_server import Server
 
@@ -115,7 +116,7 @@ def run_history(versions: list[dict[str, str]], flags: list[str], targets: list[
         server = Server(options, os.path.join(d, ".dmypy.json"))
         prev: dict[str, str] = {}
         for i, files in enumerate(versions):
-            changed = sync_files(d, prev, files, i)
+            changed = sync_files(d, prev, files, i, backwards=bool(mtime_back and i < len(mtime_back) and mtime_back[i]))
             prev = files
             mode = (modes[i] if modes and i < len(modes) else "check") if i else "check"
             if i and set(files) != set(versions[i - 1]) and not server.following_imports():
